@@ -630,6 +630,18 @@ Proof.
   - eexists. split; [vm_compute; reflexivity|]. eexists. split; vm_compute; reflexivity.
 Qed.
 
+(* the short class in words: either the finalist cut is tied so that fewer than n plain run-off members remain, or no ballot
+   orders any two run-off members; and the contest is all of the run-off or nobody (being level on a ballot is transitive) *)
+Theorem C12_star_short_class : forall votes agg n, 1 <= n ->
+  (star_shortb votes agg n = true <->
+   length (star_finalists agg n) < n \/
+   (forall x y bw, In x (star_finalists agg n) -> In y (star_finalists agg n) -> In bw votes -> prefers (fst bw) x y = false)) /\
+  (star_contest votes agg n = star_finalists agg n \/ star_contest votes agg n = []).
+Proof.
+  intros votes agg n Hn. split; [exact (star_short_iff votes agg n Hn)|].
+  destruct (star_contest_all_or_none votes agg n) as [E|[E _]]; [left|right]; exact E.
+Qed.
+
 Print Assumptions C12_combinations_complete.
 Print Assumptions C12_combinations_sound.
 Print Assumptions C12_pav_optimal.
@@ -677,3 +689,4 @@ Print Assumptions C12_corrected_scores_ok.
 Print Assumptions C12_mj_seats_default_wf.
 Print Assumptions C12_score_truncation.
 Print Assumptions C12_score_corrections.
+Print Assumptions C12_star_short_class.
